@@ -17,7 +17,7 @@ import subprocess
 
 from vlib import core, e2e
 
-MODS = ['S4V.Props.CliSpec', 'S4V.Props.CliNoStealSpec']
+MODS = ['S4V.Props.CliSpec', 'S4V.Props.CliNoStealSpec', 'S4V.Props.FactsCli']
 GEN = ['CliTables', 'CliItems']
 LEVEL_NOTE = ("Proved over the model S4V.Model.Cli of process_dt / string_wdhms_to_duration / cli_process_args whose tables (76 pattern rows, the regex pieces and "
               "their anchors, the time-zone name map) are regenerated from s4.rs / datetime.rs on every run. ABSOLUTE FORMS, FOR ALL VALUES (C14_abs, "
